@@ -11,7 +11,8 @@ Local Open Scope list_scope.
 (* ------------------------------------------------------------ decidable equalities *)
 Definition fkind_eqb (a b : fkind) : bool :=
   match a, b with
-  | KBadConn, KBadConn | KConnDone, KConnDone | KTxDone, KTxDone | KCanceled, KCanceled | KDeadline, KDeadline => true
+  | KBadConn, KBadConn | KConnDone, KConnDone | KTxDone, KTxDone | KCanceled, KCanceled | KDeadline, KDeadline
+  | KNoRows, KNoRows => true
   | _, _ => false
   end.
 Fixpoint err_eqb (a b : err) : bool :=
